@@ -55,6 +55,20 @@ def sources(tier, seed, ctx):
         gs = [['AND', [1, 2]], ['OR', [ni + 1, 3]]] + [['XOR', [ni + 2 + k, 4 + k]] for k in range(ni - 3)]
         srcs.append({'net': [ni, gs], 'outs': [ni + len(gs), ni + 2], 'basis': 'XAIG', 'basis_enum': False, 'validation': False,
                      'max_size': 5, 'cut_size': 4, 'cut_limit': 8, 'time_limit': 0, 'hashseed': 0, 'cutseed': 0, 'storage': 'built', 'twice': False, 'ss': 0})
+    # cones that are already optimal but contain several negations (NOR written as AND(NOT a, NOT b), its three-input form, a
+    # negated-input XOR), as built, deep-copied and pickled (ss selects the clone): nothing can be saved here, so nothing may grow
+    for j in range(24 if tier == 'quick' else 96):
+        three = j % 2
+        t = ['AND', 'OR', 'XOR', 'NAND'][(j // 2) % 4]
+        gs = [['NOT', [1]], ['NOT', [2]]] + ([['NOT', [3]]] if three else [])
+        k = 2 + len(gs) - (0 if three else 0)
+        base = 3 if three else 2
+        gs.append([t, [base + 1, base + 2]])
+        if three:
+            gs.append([t, [base + 4, base + 3]])
+        srcs.append({'net': [base, gs], 'outs': [base + len(gs)], 'basis': ['AIG', 'XAIG', 'FULL'][j % 3], 'basis_enum': False, 'validation': j % 4 == 0,
+                     'max_size': 5, 'cut_size': 4, 'cut_limit': 8, 'time_limit': 0, 'hashseed': 0, 'cutseed': 0, 'storage': 'built', 'twice': False,
+                     'ss': 1 + j % 2})
     # wide cuts: 6 and 7 leaves (beyond the default cut_size), cones that are wide AND-OR-XOR trees over 7 inputs so that a
     # 7-leaf cut exists and a smaller equivalent is found quickly; the solver runs under a time limit
     wrng = random.Random(seed * 7 + 404)          # its own stream: the shapes do not depend on what was generated before
